@@ -237,6 +237,10 @@ def prog_module(rnd):
         outs.append(ci[1])
         if rnd.random() < 0.5:
             main.add_state_order(load, main.output_node)
+    if rnd.random() < 0.5:
+        # a polymorphic function loaded at an instantiation and called indirectly
+        lp = main.load_function(f_decl, instantiation=T.FunctionType.endo([T.Bool]), type_args=[T.Bool.type_arg()])
+        outs.append(main.add(O.CallIndirect()(lp, b))[0])
     if c is not None:
         outs.append(main.load(c))
     if rnd.random() < 0.4:
